@@ -66,6 +66,7 @@ type Frame struct {
 	loopPre  map[*ssa.BasicBlock]*State
 	reachDone map[string]bool
 	assignRows map[string]string
+	heapAllocs []*ssa.Alloc
 	parent   *Frame
 }
 
